@@ -283,7 +283,7 @@ func c08Run(c *mon.Ctx, r *mon.Rand) {
 	for k := range zs {
 		zs[k] = root.SubScope(fmt.Sprintf("z%d", k))
 	}
-	ys := make([]tally.Scope, nZ/2)
+	ys := make([]tally.Scope, 20*nZ)
 	for k := range ys {
 		ys[k] = root.SubScope(fmt.Sprintf("y%d", k))
 	}
@@ -399,15 +399,20 @@ func c08Run(c *mon.Ctx, r *mon.Rand) {
 	}
 	for d := 0; d < 2 && len(ys) > 0; d++ {
 		wgC.Add(1)
-		go func() {
+		go func(d int) {
 			defer wgC.Done()
 			<-startC
 			c.Guard("panic-subscope-close-during-close", func() interface{} { return desc }, func() {
-				for _, y := range ys {
-					y.(io.Closer).Close()
+				// one goroutine front to back, the other back to front; the shutdown
+				// itself walks over the same scopes at the same time
+				for k := range ys {
+					if d == 1 {
+						k = len(ys) - 1 - k
+					}
+					ys[k].(io.Closer).Close()
 				}
 			})
-		}()
+		}(d)
 	}
 	// gauges whose first use was made by several goroutines at once: every
 	// handle is the one gauge, so after each handle was updated in turn (before
